@@ -1,16 +1,5 @@
-/* contracts under which QXmppStunMessage::decode is verified; each callee is itself a target (setBodyLength,
-   decodeAddress, generateCrc32, generateHmac) or an assumed Qt contract (QByteArray::operator!=, QString::fromUtf8) */
-bool decodeAddress(QDataStream *stream, quint16 a_length, QHostAddress *address, quint16 *port, const QByteArray *xorId)
-__CPROVER_requires(stream->pos >= 0 && stream->pos <= stream->ba->n)
-__CPROVER_assigns(stream->pos, *address, *port)
-__CPROVER_ensures(stream->pos >= __CPROVER_old(stream->pos) && stream->pos <= stream->ba->n)
-__CPROVER_ensures(__CPROVER_return_value ==> (stream->pos == __CPROVER_old(stream->pos) + (int)a_length || stream->pos == stream->ba->n))
-;
-void setBodyLength(QByteArray *b, qint16 length)
-__CPROVER_requires(b->n >= 4)
-__CPROVER_assigns(b->patched, b->p2, b->p3)
-__CPROVER_ensures(b->patched && (unsigned char)b->p2 == (unsigned char)(((quint16)length) >> 8) && (unsigned char)b->p3 == (unsigned char)(((quint16)length) & 0xff))
-;
+/* contracts under which QXmppStunMessage::decode is verified; setBodyLength and decodeAddress enter through
+   the very contracts they are verified against (generated prototypes); generateCrc32 / generateHmac are verified separately or an assumed Qt contract (QByteArray::operator!=, QString::fromUtf8) */
 /* HMAC-SHA1 as an oracle: records key, length and the witness byte of its text argument; the result is the opaque value gh_hmac_out */
 void generateHmacSha1(QByteArray *ret, const QByteArray *key, const QByteArray *text)
 __CPROVER_assigns(*ret, gh_hmac_calls, gh_hmac_len, gh_hmac_key, gh_hmac_arg_k)
